@@ -48,6 +48,9 @@ func runC11(c *runCtx) {
 		strings.Repeat("SELECT a FROM t WHERE a = 1; ", 40),
 		"SELECT a FROM t WHERE MATCH(a) AGAINST ('x') AND b BETWEEN (SELECT 1) AND (SELECT 2)",
 		"SELECT a FROM t LIMIT 5, 10", ";", "SELECT 1;; SELECT 2", "; SELECT 1", "SELECT 1 ;", "SELECT `a` FROM `t` LIMIT 1, 2",
+		// comments in every place, and in long runs: trivia is read by a loop of its own
+		"-- note\nSELECT a FROM t", "/* a */ SELECT /* b */ 1 /* c */ -- d\n, 2 -- e", "SELECT a -- x\nFROM t -- y\nWHERE b = 1 /* z */",
+		strings.Repeat("-- c\n", 250)+"SELECT 1", "SELECT 1 "+strings.Repeat("/* c */ ", 250)+", 2", strings.Repeat("/* a */ -- b\n", 120)+"SELECT a FROM t "+strings.Repeat("-- t\n", 120),
 	)
 	g := newSQLGen(c.rng.Fork())
 	for i := 0; i < c.n(60, 1500); i++ {
@@ -270,17 +273,45 @@ func runC11(c *runCtx) {
 		tk, _ := tokenizer.New()
 		tref := &pollCtx{Context: context.Background(), k: -1}
 		toks, terr := tk.TokenizeContext(tref, []byte(sql))
-		for k := 0; k < tref.n && k < 6; k++ {
-			ctx := &pollCtx{Context: context.Background(), k: k, err: context.Canceled}
+		for k := 0; k < tref.n && k < 40; k++ {
+			cause := causes[k%2]
+			ctx := &pollCtx{Context: context.Background(), k: k, err: cause}
 			got, err := tk.TokenizeContext(ctx, []byte(sql))
 			res.count(fmt.Sprintf("tok|%s|%d", sql, k), true)
-			wit := map[string]any{"entry": "Tokenizer.TokenizeContext", "sql": sql, "k": k}
-			if got != nil || err == nil || !errors.Is(err, context.Canceled) {
+			wit := map[string]any{"entry": "Tokenizer.TokenizeContext", "sql": sql, "k": k, "cause": cause.Error()}
+			if got != nil || err == nil || !errors.Is(err, cause) {
 				res.fail("tokenizer-cancel", "TokenizeContext did not report the cancellation as such", wit, fmt.Sprint(err))
 			}
+			// the same instance afterwards: through both entry points, directly, after Reset, and after a trip through the pool
 			again, aerr := tk.Tokenize([]byte(sql))
 			if fmtToks(again) != fmtToks(toks) || errCode(aerr) != errCode(terr) {
 				res.fail("tokenizer-not-reusable-after-cancel", "a tokenizer used by a cancelled call tokenizes differently afterwards", wit, nil)
+			}
+			for step, prep := range []func(){func() {}, func() { tk.Reset() }} {
+				prep()
+				again2, aerr2 := tk.TokenizeContext(context.Background(), []byte(sql))
+				if fmtToks(again2) != fmtToks(toks) || errCode(aerr2) != errCode(terr) || (aerr2 != nil && (errors.Is(aerr2, context.Canceled) || errors.Is(aerr2, context.DeadlineExceeded))) {
+					res.fail("tokenizer-not-reusable-after-cancel", "a tokenizer used by a cancelled call answers a later TokenizeContext with a live context differently (directly / after Reset)", wit,
+						map[string]any{"after_reset": step == 1, "error": fmt.Sprint(aerr2)})
+					break
+				}
+			}
+		}
+		// … and a pooled tokenizer that saw a cancellation is as good as new for the next borrower
+		if tref.n > 0 {
+			k := ii % tref.n
+			ptk := tokenizer.GetTokenizer()
+			_, _ = ptk.TokenizeContext(&pollCtx{Context: context.Background(), k: k, err: context.Canceled}, []byte(sql))
+			tokenizer.PutTokenizer(ptk)
+			for d := 0; d < 3; d++ {
+				b := tokenizer.GetTokenizer()
+				again, aerr := b.TokenizeContext(context.Background(), []byte(sql))
+				if fmtToks(again) != fmtToks(toks) || errCode(aerr) != errCode(terr) {
+					res.fail("tokenizer-not-reusable-after-cancel", "a pooled tokenizer that saw a cancellation answers the next borrower differently",
+						map[string]any{"entry": "tokenizer.GetTokenizer / TokenizeContext", "sql": sql, "k": k}, fmt.Sprint(aerr))
+					break
+				}
+				defer tokenizer.PutTokenizer(b)
 			}
 		}
 		if terr != nil {
